@@ -64,8 +64,11 @@ package fosite
 
 //@ func WildcardScopeStrategy
 //@   ensures [C12.wildcard-equals-spec] result <==> (exists j int :: 0 <= j && j < len(matchers) && wild(strings.Split(matchers[j], "."), strings.Split(needle, ".")))
+//@   ensures [C05.strategy-decides-as-documented] result <==> (exists j int :: 0 <= j && j < len(matchers) && wild(strings.Split(matchers[j], "."), strings.Split(needle, ".")))
 //@   invariant loop#1 [C12.wildcard-equals-spec] $i <= len(matchers) && (forall j int :: 0 <= j && j < $i ==> !wild(strings.Split(matchers[j], "."), strings.Split(needle, ".")))
+//@   invariant loop#1 [C05.strategy-decides-as-documented] $i <= len(matchers) && (forall j int :: 0 <= j && j < $i ==> !wild(strings.Split(matchers[j], "."), strings.Split(needle, ".")))
 //@   invariant loop#2 [C12.wildcard-equals-spec] $i#1 < len(matchers) && $i <= len(matcherParts) && len(matcherParts) <= len(needleParts) && matcherParts == strings.Split(matchers[$i#1], ".") && (forall j int :: 0 <= j && j < $i#1 ==> !wild(strings.Split(matchers[j], "."), strings.Split(needle, "."))) && (forall j int :: 0 <= j && j < $i ==> segok(matcherParts, needleParts, j))
+//@   invariant loop#2 [C05.strategy-decides-as-documented] $i#1 < len(matchers) && $i <= len(matcherParts) && len(matcherParts) <= len(needleParts) && matcherParts == strings.Split(matchers[$i#1], ".") && (forall j int :: 0 <= j && j < $i#1 ==> !wild(strings.Split(matchers[j], "."), strings.Split(needle, "."))) && (forall j int :: 0 <= j && j < $i ==> segok(matcherParts, needleParts, j))
 
 // hier: the haystack entry equals the needle, or its dot-separated segments are a proper prefix of the
 // needle's segments.
@@ -73,12 +76,17 @@ package fosite
 
 //@ func HierarchicScopeStrategy
 //@   ensures [C12.hierarchic-equals-spec] result <==> (exists j int :: 0 <= j && j < len(haystack) && hier(haystack[j], needle))
+//@   ensures [C05.strategy-decides-as-documented] result <==> (exists j int :: 0 <= j && j < len(haystack) && hier(haystack[j], needle))
 //@   invariant loop#1 [C12.hierarchic-equals-spec] $i <= len($p_haystack) && (forall j int :: 0 <= j && j < $i ==> !hier($p_haystack[j], $p_needle))
+//@   invariant loop#1 [C05.strategy-decides-as-documented] $i <= len($p_haystack) && (forall j int :: 0 <= j && j < $i ==> !hier($p_haystack[j], $p_needle))
 //@   invariant loop#2 [C12.hierarchic-equals-spec] $i#1 < len($p_haystack) && this == $p_haystack[$i#1] && this != $p_needle && needles == strings.Split($p_needle, ".") && haystack == strings.Split(this, ".") && haystackLen == len(haystack) - 1 && $i <= len(needles) && $i <= len(haystack) && (forall j int :: 0 <= j && j < $i#1 ==> !hier($p_haystack[j], $p_needle)) && (forall j int :: 0 <= j && j < $i ==> haystack[j] == needles[j])
+//@   invariant loop#2 [C05.strategy-decides-as-documented] $i#1 < len($p_haystack) && this == $p_haystack[$i#1] && this != $p_needle && needles == strings.Split($p_needle, ".") && haystack == strings.Split(this, ".") && haystackLen == len(haystack) - 1 && $i <= len(needles) && $i <= len(haystack) && (forall j int :: 0 <= j && j < $i#1 ==> !hier($p_haystack[j], $p_needle)) && (forall j int :: 0 <= j && j < $i ==> haystack[j] == needles[j])
 
 //@ func ExactScopeStrategy
 //@   ensures [C12.exact-equals-spec] result <==> (exists j int :: 0 <= j && j < len(haystack) && haystack[j] == needle)
+//@   ensures [C05.strategy-decides-as-documented] result <==> (exists j int :: 0 <= j && j < len(haystack) && haystack[j] == needle)
 //@   invariant loop#1 [C12.exact-equals-spec] $i <= len(haystack) && (forall j int :: 0 <= j && j < $i ==> haystack[j] != needle)
+//@   invariant loop#1 [C05.strategy-decides-as-documented] $i <= len(haystack) && (forall j int :: 0 <= j && j < $i ==> haystack[j] != needle)
 
 //@ func StringInSlice
 //@   pure
@@ -110,9 +118,13 @@ package fosite
 
 //@ func ExactAudienceMatchingStrategy
 //@   ensures [C12.exact-audience-equals-spec] err == nil <==> (forall i int :: 0 <= i && i < len(needle) ==> (exists j int :: 0 <= j && j < len(haystack) && needle[i] == haystack[j]))
+//@   ensures [C05.strategy-decides-as-documented] err == nil <==> (forall i int :: 0 <= i && i < len(needle) ==> (exists j int :: 0 <= j && j < len(haystack) && needle[i] == haystack[j]))
 //@   ensures [C12.exact-audience-error-class] err != nil ==> ehead(err).ErrorField == "invalid_request"
+//@   ensures [C05.strategy-decides-as-documented] err != nil ==> ehead(err).ErrorField == "invalid_request"
 //@   invariant loop#1 [C12.exact-audience-equals-spec] $i <= len(needle) && (forall i int :: 0 <= i && i < $i ==> (exists j int :: 0 <= j && j < len(haystack) && needle[i] == haystack[j]))
+//@   invariant loop#1 [C05.strategy-decides-as-documented] $i <= len(needle) && (forall i int :: 0 <= i && i < $i ==> (exists j int :: 0 <= j && j < len(haystack) && needle[i] == haystack[j]))
 //@   invariant loop#2 [C12.exact-audience-equals-spec] $i#1 < len(needle) && n == needle[$i#1] && $i <= len(haystack) && (found <==> (exists j int :: 0 <= j && j < $i && n == haystack[j])) && (forall i int :: 0 <= i && i < $i#1 ==> (exists j int :: 0 <= j && j < len(haystack) && needle[i] == haystack[j]))
+//@   invariant loop#2 [C05.strategy-decides-as-documented] $i#1 < len(needle) && n == needle[$i#1] && $i <= len(haystack) && (found <==> (exists j int :: 0 <= j && j < $i && n == haystack[j])) && (forall i int :: 0 <= i && i < $i#1 ==> (exists j int :: 0 <= j && j < len(haystack) && needle[i] == haystack[j]))
 
 // matchAud: documented meaning of the default audience strategy for one (registered, requested) pair: both
 // parse, scheme and host are equal, and the requested path equals the registered path, or equals it without
@@ -121,10 +133,15 @@ package fosite
 
 //@ func DefaultAudienceMatchingStrategy
 //@   ensures [C12.default-audience-sound] err == nil ==> (forall i int :: 0 <= i && i < len(needle) ==> (exists j int :: 0 <= j && j < len(haystack) && matchAud(haystack[j], needle[i])))
+//@   ensures [C05.strategy-decides-as-documented] err == nil ==> (forall i int :: 0 <= i && i < len(needle) ==> (exists j int :: 0 <= j && j < len(haystack) && matchAud(haystack[j], needle[i])))
 //@   ensures [C12.default-audience-complete] (forall i int :: 0 <= i && i < len(needle) ==> url_ok(needle[i])) && (forall j int :: 0 <= j && j < len(haystack) ==> url_ok(haystack[j])) && (forall i int :: 0 <= i && i < len(needle) ==> (exists j int :: 0 <= j && j < len(haystack) && matchAud(haystack[j], needle[i]))) ==> err == nil
+//@   ensures [C05.strategy-decides-as-documented] (forall i int :: 0 <= i && i < len(needle) ==> url_ok(needle[i])) && (forall j int :: 0 <= j && j < len(haystack) ==> url_ok(haystack[j])) && (forall i int :: 0 <= i && i < len(needle) ==> (exists j int :: 0 <= j && j < len(haystack) && matchAud(haystack[j], needle[i]))) ==> err == nil
 //@   ensures [C12.default-audience-error-class] err != nil ==> ehead(err).ErrorField == "invalid_request"
+//@   ensures [C05.strategy-decides-as-documented] err != nil ==> ehead(err).ErrorField == "invalid_request"
 //@   invariant loop#1 [C12.default-audience-sound] $i <= len(needle) && (forall i int :: 0 <= i && i < $i ==> url_ok(needle[i]) && (exists j int :: 0 <= j && j < len(haystack) && matchAud(haystack[j], needle[i])))
+//@   invariant loop#1 [C05.strategy-decides-as-documented] $i <= len(needle) && (forall i int :: 0 <= i && i < $i ==> url_ok(needle[i]) && (exists j int :: 0 <= j && j < len(haystack) && matchAud(haystack[j], needle[i])))
 //@   invariant loop#2 [C12.default-audience-sound] $i#1 < len(needle) && n == needle[$i#1] && url_ok(n) && nu != nil && nu.Scheme == url_scheme(n) && nu.Host == url_host(n) && nu.Path == url_path(n) && $i <= len(haystack) && (forall j int :: 0 <= j && j < $i ==> url_ok(haystack[j])) && (found <==> (exists j int :: 0 <= j && j < $i && matchAud(haystack[j], n))) && (forall i int :: 0 <= i && i < $i#1 ==> url_ok(needle[i]) && (exists j int :: 0 <= j && j < len(haystack) && matchAud(haystack[j], needle[i])))
+//@   invariant loop#2 [C05.strategy-decides-as-documented] $i#1 < len(needle) && n == needle[$i#1] && url_ok(n) && nu != nil && nu.Scheme == url_scheme(n) && nu.Host == url_host(n) && nu.Path == url_path(n) && $i <= len(haystack) && (forall j int :: 0 <= j && j < $i ==> url_ok(haystack[j])) && (found <==> (exists j int :: 0 <= j && j < $i && matchAud(haystack[j], n))) && (forall i int :: 0 <= i && i < $i#1 ==> url_ok(needle[i]) && (exists j int :: 0 <= j && j < len(haystack) && matchAud(haystack[j], needle[i])))
 
 // ---------------------------------------------------------------- abstract store (ghost state)
 //
@@ -737,9 +754,17 @@ package fosite
 //@   modifies a.ID
 //@   ensures [C20.request-id-stable] old(a.ID) != "" ==> result == old(a.ID) && a.ID == old(a.ID)
 //@   ensures [C20.request-id-stable] result == a.ID
+//@   ensures [C16.request-id-never-empty] result != ""
 
 // The sanitized copy keeps exactly those form keys that are white-listed by the caller or are one of the four
 // defaults, with the receiver's values; everything else (credentials included) is dropped.
+// DeviceRequest.Sanitize (in place today) fixes and keeps the request's identity: the id is the only link between a device code and the
+// tokens issued from it.
+//@ func (*DeviceRequest).Sanitize
+//@   requires d != nil && d.Request.Form != nil
+//@   modifies fields(d)
+//@   ensures [C16.sanitize-keeps-the-request-id] typeis(result, *DeviceRequest) && cast(result, *DeviceRequest).Request.ID != "" && (old(d.Request.ID) != "" ==> cast(result, *DeviceRequest).Request.ID == old(d.Request.ID))
+
 //@ func (*Request).Sanitize
 //@   let rb = cast(result, *Request)
 //@   requires a != nil && a.Form != nil
@@ -750,7 +775,7 @@ package fosite
 //@   ensures [C02.sanitize-keeps-allowed] forall k string :: insl(allowedParameters, k) && (k in a.Form) ==> (k in rb.Form) && rb.Form[k] == a.Form[k]
 //@   invariant loop#1 [C02.sanitize-keeps-allowed] forall j int :: 0 <= j && j < $i && j < len(allowedParameters) ==> (allowedParameters[j] in allowed) && allowed[allowedParameters[j]]
 //@   invariant loop#2 [C02.sanitize-keeps-allowed] (forall j int :: 0 <= j && j < len(allowedParameters) ==> (allowedParameters[j] in allowed) && allowed[allowedParameters[j]]) && (forall k string :: $visited(k) && (k in allowed) && allowed[k] ==> (k in b.Form) && b.Form[k] == a.Form[k])
-//@   ensures [C20.sanitize-keeps-grant] rb.Client == a.Client && rb.Session == a.Session && rb.GrantedScope == a.GrantedScope && rb.GrantedAudience == a.GrantedAudience && rb.RequestedScope == a.RequestedScope && rb.RequestedAudience == a.RequestedAudience && rb.RequestedAt == a.RequestedAt && rb.ID == a.ID
+//@   ensures [C20.sanitize-keeps-grant] rb.Client == a.Client && rb.Session == a.Session && rb.GrantedScope == a.GrantedScope && rb.GrantedAudience == a.GrantedAudience && rb.RequestedScope == a.RequestedScope && rb.RequestedAudience == a.RequestedAudience && rb.RequestedAt == a.RequestedAt && rb.ID == a.ID && a.ID != "" && (old(a.ID) != "" ==> a.ID == old(a.ID))
 //@   invariant loop#1 [C20.sanitize-whitelist] forall k string :: (k in allowed && allowed[k]) ==> (insl(allowedParameters, k) || k == "grant_type" || k == "response_type" || k == "scope" || k == "client_id")
 //@   invariant loop#2 [C20.sanitize-whitelist] b != a && b.Form != a.Form && a.Form == pre(a.Form) && (forall k string :: (k in allowed && allowed[k]) ==> (insl(allowedParameters, k) || k == "grant_type" || k == "response_type" || k == "scope" || k == "client_id")) && (forall k string :: k in b.Form ==> (k in allowed && allowed[k]) && k in a.Form && b.Form[k] == a.Form[k])
 
